@@ -57,9 +57,13 @@ POOL = {
     "gs2": "TS($T)->TS($T)",
     "gtt2": "#S,#S->#S",
 }
-UNIVERSE = ["TS(int)", "TS(str)", "TS(float)", "TS(bool)", "TSL(TS(int),3)", "TSL(TS(str),2)", "TSL(TSL(TS(int),3),2)",
+UNIVERSE = ["TSB(Quote)", "TSB(Spread)", "TSB(U)", "TSB(Trade)", "TSL(TSB(Quote),3)", "TSD(int,TSB(Spread))",
+            "TS(int)", "TS(str)", "TS(float)", "TS(bool)", "TSL(TS(int),3)", "TSL(TS(str),2)", "TSL(TSL(TS(int),3),2)",
             "TSD(int,TS(str))", "TSD(str,TS(int))", "TSD(int,TSL(TS(int),3))", "TSS(int)", "TSS(str)", "REF(TS(int))",
             "REF(TSL(TS(int),3))", "SIGNAL"]
+
+
+SMALL = ["TSB(Quote)", "TSB(Spread)", "TSB(U)", "TS(int)", "TS(str)", "TS(float)", "TSL(TS(int),3)", "REF(TS(int))"]
 
 
 # ---- tiny parser of the pattern language ------------------------------------------------------------
@@ -112,6 +116,10 @@ def parse(text):
             e = scalar()
             eat(")")
             return ("TSS", e)
+        if eat("TSB("):
+            name = ident()
+            eat(")")
+            return ("TSBN", name)          # a nominal bundle type: identity is the NAME (Quote and Spread share their field list)
         if eat("REF("):
             t = ts()
             eat(")")
@@ -141,6 +149,8 @@ def render(p):
         return f"REF[{render(p[1])}]"
     if k == "SIGNAL":
         return "SIGNAL"
+    if k == "TSBN":
+        return "TSB{bid:TS[int],ask:TS[int]}" if p[1] == "U" else p[1]
     return "?"
 
 
@@ -334,7 +344,7 @@ def main(tier, seed, replay):
             cands = [l for l in labels if len(SIGS[l][0]) == ar]
             fam = tuple(sorted(rng.sample(cands, min(len(cands), rng.choice([1, 2, 2, 3, 3, 4, 5])))))
             # deliberately duplicated signature under another label -> must be ambiguous when it is the best
-            args = tuple(rng.choice(UNIVERSE if rng.random() < 0.5 else UNIVERSE[:5] + UNIVERSE[12:13]) for _ in range(ar))
+            args = tuple(rng.choice(UNIVERSE if rng.random() < 0.5 else SMALL) for _ in range(ar))
             if ar == 2 and rng.random() < 0.5:
                 args = (args[0], args[0])
             fams.append((fam, args))
